@@ -22,7 +22,7 @@ class Fn:
 
     def __init__(self, ident, prop, name=None, params=None, cases=None, requires=None, ensures=None, raises=None,
                  raises_exact=True, env=None, loop_specs=None, build=None, call=None, frame=None, native=None,
-                 notes=None, modular=None, max_paths=20000):
+                 notes=None, modular=None, max_paths=20000, native_pref=None):
         self.ident = ident
         self.prop = prop
         self.name = name or ident.split(':')[1]
